@@ -434,7 +434,7 @@ func init() {
 			{H: "H_C08_Script", K: 60, U: 3, Prune: true, Preempt: 2, Fixes: []string{"op0=3,op1=0"}, TimeoutSec: 1200},
 			{H: "H_C08_Script", K: 60, U: 3, Prune: true, Preempt: 2, Fixes: []string{"op0=0,op1=2"}, TimeoutSec: 1200},
 			// SetContext(B), then the FIRST value's released() callback again (stale): one preemption
-			{H: "H_C08_Script", K: 60, U: 3, Prune: true, Preempt: 1, Fixes: []string{"op0=2,op1=5"}, TimeoutSec: 1200},
+			{H: "H_C08_Script", K: 48, U: 3, Prune: true, Preempt: 1, Fixes: []string{"op0=2,op1=5"}, TimeoutSec: 1200},
 			{H: "H_C08_Script", K: 60, U: 3, Prune: true, Preempt: 2, Fixes: []string{"op0=2,op1=0"}, TimeoutSec: 1200},
 			{H: "H_C08_Script", K: 60, U: 3, Prune: true, Preempt: 2, Fixes: []string{"op0=0,op1=3"}, TimeoutSec: 1200},
 		},
